@@ -21,11 +21,14 @@ pub enum Term {
     None, Some(Box<Term>), Unit, UnitStruct(usize), UnitVariant(usize), NewtypeStruct(usize, Box<Term>), NewtypeVariant(usize, Box<Term>),
     Seq(Vec<Term>), Tuple(Vec<Term>), TupleStruct(usize, Vec<Term>), TupleVariant(usize, Vec<Term>), Map(Vec<(Term, Term)>), MapBad(Vec<(Term, Term)>),
     Struct(usize, Vec<(usize, Term)>), StructVariant(usize, Vec<(usize, Term)>),
+    /// a type that consults `Serializer::is_human_readable()` (std::net::IpAddr, uuid, ...): textual form, compact form
+    Hr(Box<Term>, Box<Term>),
 }
 
 impl Serialize for Term {
     fn serialize<S: Serializer>(&self, s: S) -> Result<S::Ok, S::Error> {
         match self {
+            Term::Hr(text, compact) => if s.is_human_readable() { text.serialize(s) } else { compact.serialize(s) },
             Term::Bool(v) => s.serialize_bool(*v),
             Term::I8(v) => s.serialize_i8(*v),
             Term::I16(v) => s.serialize_i16(*v),
@@ -112,6 +115,7 @@ impl Serialize for Term {
 pub fn term_json(t: &Term) -> J {
     let int = |s: &str, n: i128| json!({"s": s, "n": enc::big(n)});
     match t {
+        Term::Hr(x, y) => json!({"s": "hr", "x": term_json(x), "y": term_json(y)}),
         Term::Bool(v) => json!({"s": "bool", "v": v}),
         Term::I8(v) => int("i8", *v as i128), Term::I16(v) => int("i16", *v as i128), Term::I32(v) => int("i32", *v as i128), Term::I64(v) => int("i64", *v as i128),
         Term::U8(v) => int("u8", *v as i128), Term::U16(v) => int("u16", *v as i128), Term::U32(v) => int("u32", *v as i128), Term::U64(v) => int("u64", *v as i128),
@@ -159,7 +163,13 @@ pub fn gen_term(rng: &mut Rng, depth: usize, key_pos: bool) -> Term {
         13 => Term::Bytes(rng.pick(&[vec![], vec![0u8, 255], vec![97, 98, 99]]).clone()),
         14 => Term::None,
         15 => Term::Unit,
-        16 => if rng.chance(1, 2) { Term::UnitVariant(rng.below(VARIANTS.len())) } else { Term::UnitStruct(rng.below(NAMES.len())) },
+        16 => match rng.below(3) {
+            0 => Term::UnitVariant(rng.below(VARIANTS.len())),
+            1 => Term::UnitStruct(rng.below(NAMES.len())),
+            // text when the format is human readable (as serde_json is), a compact encoding otherwise
+            _ => Term::Hr(Box::new(Term::Str(rng.pick(&["127.0.0.1", "::1", "k1"]).to_string())),
+                          Box::new(if rng.chance(1, 2) { Term::Tuple(vec![Term::U8(127), Term::U8(0), Term::U8(0), Term::U8(1)]) } else { Term::Bytes(vec![127, 0, 0, 1]) })),
+        },
         17 => Term::Some(Box::new(gen_term(rng, depth - 1, key_pos))),
         18 => Term::NewtypeStruct(rng.below(NAMES.len()), Box::new(gen_term(rng, depth - 1, key_pos))),
         19 => Term::NewtypeVariant(rng.below(VARIANTS.len()), Box::new(gen_term(rng, depth - 1, false))),
@@ -321,6 +331,32 @@ pub fn drive_c17(seed: u64, thorough: bool, out: &mut dyn Write) -> usize {
     id
 }
 
+/// Values built from JSON-native kinds only (the round-trip clause of C18 speaks about these): string keys
+/// include texts that look like numbers, booleans and null.
+fn gen_json_native(rng: &mut Rng, depth: usize) -> Value {
+    use cel_interpreter::objects::{Key, Map};
+    use std::collections::HashMap;
+    use std::sync::Arc;
+    let k = if depth == 0 { rng.below(6) } else { rng.below(9) };
+    match k {
+        0 => Value::Int(*rng.pick(&[0i64, 1, -1, 7, i64::MAX, i64::MIN, 9007199254740993])),
+        1 => Value::UInt(*rng.pick(&[0u64, 1, u64::MAX, 1u64 << 63])),
+        2 => Value::Float(*rng.pick(&[0.0f64, -0.0, 1.5, -2.25, 1e300, 5e-324, 1e21, 0.1])),
+        3 => Value::String(Arc::new(rng.pick(&["", "a", "é", "1", "-7", "true", "null", "2024-02-29T12:00:00Z", "1.5"]).to_string())),
+        4 => Value::Bool(rng.chance(1, 2)),
+        5 => Value::Null,
+        6 => Value::List(Arc::new((0..rng.below(4)).map(|_| gen_json_native(rng, depth - 1)).collect())),
+        _ => {
+            let mut m = HashMap::new();
+            for _ in 0..rng.below(4) {
+                let key = *rng.pick(&["a", "b", "1", "-7", "2024", "007", "1e3", "true", "null", "", "é", "18446744073709551615", "1.0"]);
+                m.insert(Key::String(Arc::new(key.to_string())), gen_json_native(rng, depth - 1));
+            }
+            Value::Map(Map { map: Arc::new(m) })
+        }
+    }
+}
+
 pub fn drive_c18(seed: u64, thorough: bool, out: &mut dyn Write) -> usize {
     let mut rng = Rng::new(seed);
     let mut id = 0;
@@ -336,7 +372,7 @@ pub fn drive_c18(seed: u64, thorough: bool, out: &mut dyn Write) -> usize {
     specials.push(Value::Duration(chrono::Duration::MIN));
     for i in 0..n {
         let dd = 1 + rng.below(5);
-        let v = if i < specials.len() { specials[i].clone() } else { gen::gen_any_value(&mut rng, dd, true) };
+        let v = if i < specials.len() { specials[i].clone() } else if i % 3 == 1 { gen_json_native(&mut rng, dd.min(4)) } else { gen::gen_any_value(&mut rng, dd, true) };
         let o = json_outcome(&v);
         // import the exported document back
         let back = match catch_unwind(AssertUnwindSafe(|| v.json().ok())) {
